@@ -241,9 +241,39 @@ class Gen:
         self.stmts += 1
         return lines
 
+    def comment_block(self, out):
+        """A comment at global scope: one statement, possibly on several lines."""
+        r = self.r
+        k = r.randrange(4)
+        if k == 0:
+            out.append("// " + self.pick(["helper", "see below", "TODO later", "x = y * 2;"]))
+        elif k == 1:
+            out.append("/* " + self.pick(["one line", "int a;", "return (0);"]) + " */")
+        else:
+            n = r.randrange(1, 4)
+            out.append("/*")
+            for _ in range(n):
+                out.append("** " + self.pick(["about this", "if (x) {", "#define Y", "'quote", "line \\"]))
+            out.append("*/")
+            self.cont += n + 1
+
+    def preproc_block(self, out, depth):
+        """#ifdef / #if blocks with nested defines (indented as the norm wants)."""
+        r = self.r
+        ind = " " * depth
+        k = r.randrange(3)
+        m = self.pick(["BUFFER_SIZE", "MAX_LEN", "ZERO", "FLAG_A", "DEBUG"])
+        if k == 0:
+            out += [f"#{ind}ifdef {m}", f"#{ind} define {m}_B 1", f"#{ind}else", f"#{ind} define {m}_B 2", f"#{ind}endif"]
+        elif k == 1:
+            out += [f"#{ind}if defined({m}) && ({m} > 2 || !ZERO)", f"#{ind} define W 1", f"#{ind}elif {m} == 3", f"#{ind} define W 2", f"#{ind}endif"]
+        else:
+            out += [f"#{ind}ifndef {m}", f"#{ind} define {m} {self.pick(CONSTS[:6])}", f"#{ind}endif", f"#{ind}undef ZERO"]
+
     def c_file(self, name):
         r = self.r
         self.stmts = 0
+        self.cont = 0
         out = header42(name).rstrip("\n").split("\n")
         self.stmts += 11
         out.append("")
@@ -261,6 +291,12 @@ class Gen:
                 self.stmts += 1
             out.append("")
             self.stmts += 1
+        if self.rich and r.random() < 0.4:
+            self.preproc_block(out, 0)
+            out.append("")
+        if self.rich and r.random() < 0.4:
+            self.comment_block(out)
+            out.append("")
         nf = r.randrange(1, 5)
         names = r.sample(FUNCS, nf)
         heads = [self.head() for _ in names]
@@ -270,12 +306,15 @@ class Gen:
             if k != nf - 1:
                 out.append("")
                 self.stmts += 1
+                if self.rich and r.random() < 0.3:
+                    self.comment_block(out)
         content = "\n".join(out) + "\n"
         return content, content.count("\n") - self.cont
 
     def h_file(self, name):
         r = self.r
         self.stmts = 0
+        self.cont = 0
         guard = name.upper().replace(".", "_")
         out = header42(name).rstrip("\n").split("\n")
         out += ["", f"#ifndef {guard}", f"# define {guard}", ""]
@@ -288,10 +327,29 @@ class Gen:
                 out.append(f"# define {self.pick(['BUFFER_SIZE', 'MAX_LEN', 'ZERO', 'FLAG_A'])} {self.pick(CONSTS[:8])}")
             out.append("")
         col = 8
+        if self.rich and r.random() < 0.5:
+            self.preproc_block(out, 1)
+            out.append("")
+        if self.rich and r.random() < 0.4:
+            self.comment_block(out)
+            out.append("")
+        if self.rich and r.random() < 0.4:
+            kind = self.pick(["enum", "union", "struct_plain", "fptr"])
+            if kind == "enum":
+                out += ["typedef enum e_c", "{", "\tRED,", "\tBLUE = 2", "}\tt_c;", ""]
+            elif kind == "union":
+                out += ["typedef union u_u", "{", "\tint\t\ta;", "\tchar\tb;", "}\tt_u;", ""]
+            elif kind == "struct_plain":
+                out += ["struct s_p", "{", "\tint\t\t\ta;", "\tstruct s_p\t*next;", "};", ""]
+            else:
+                out += ["typedef int\t(*t_f)(int);", ""]
         if r.random() < 0.6:
             tn = self.pick(["list", "node", "data", "vec"])
             members = r.sample(IDENTS, r.randrange(1, 4))
-            out += [f"typedef struct s_{tn}", "{"]
+            out += [f"typedef struct s_{tn}"]
+            if self.rich and r.random() < 0.35:
+                self.comment_block(out)       # a comment between the struct line and its brace
+            out += ["{"]
             mt = [self.pick(["int", "char", "long", "size_t"]) for _ in members]
             for t, m in zip(mt, members):
                 st = "*" if r.random() < 0.3 else ""
@@ -309,7 +367,7 @@ class Gen:
             out.append(f"{rtype}{tabs_to(len(rtype), col)}{star}{fn}({plist});")
         out += ["", "#endif"]
         content = "\n".join(out) + "\n"
-        return content, content.count("\n")
+        return content, content.count("\n") - self.cont
 
 
 def gen_conforming(rng, kind=None):
@@ -332,8 +390,63 @@ def gen_violating(rng, name, content):
     ops = ["trailing_space", "spaces_indent", "extra_tab", "blank_in_func", "two_blank", "no_void", "upper_ident",
            "return_noparen", "two_stmt", "for_loop", "ternary", "op_nospace", "comma_space", "kw_glued",
            "comment_in_func", "long_line", "decl_assign", "goto", "space_before_semi", "eof_blank", "no_header",
-           "lower_macro", "brace_same_line", "double_space", "tab_in_expr"]
+           "lower_macro", "brace_same_line", "double_space", "tab_in_expr",
+           # 42 header mutations (4.13), stray characters at the end of preprocessor lines
+           "header_line_removed", "header_frame_short", "header_slashes", "header_after_blank", "header_field_removed",
+           "stray_eol_preproc", "stray_eol_preproc"]
+    if name.endswith(".h"):
+        # include-guard mutations (4.14)
+        ops += ["guard_no_define", "guard_no_define", "guard_wrong_symbol", "guard_lower", "guard_doubled", "decl_before_guard",
+                "decl_after_endif", "no_guard", "guard_define_other"]
     op = ops[rng.randrange(len(ops))]
+    pre_idx = [i for i, ln in enumerate(lines) if i > 11 and ln.lstrip().startswith("#")]
+    if op.startswith("guard_") or op in ("decl_before_guard", "decl_after_endif", "no_guard"):
+        gi = next((i for i, ln in enumerate(lines) if ln.startswith("#ifndef ")), None)
+        di = next((i for i, ln in enumerate(lines) if ln.startswith("# define ") and gi is not None and i == gi + 1), None)
+        ei = max((i for i, ln in enumerate(lines) if ln.startswith("#endif")), default=None)
+        if gi is not None and di is not None and ei is not None:
+            sym = lines[gi].split()[1]
+            if op == "guard_no_define":
+                del lines[di]
+            elif op == "guard_wrong_symbol":
+                lines[gi] = "#ifndef OTHER_H"
+                lines[di] = "# define OTHER_H"
+            elif op == "guard_lower":
+                lines[gi] = "#ifndef " + sym.lower()
+                lines[di] = "# define " + sym.lower()
+            elif op == "guard_doubled":
+                lines[di + 1:di + 1] = ["# ifndef " + sym + "_2", "#  define " + sym + "_2", "# endif"]
+            elif op == "decl_before_guard":
+                lines[gi:gi] = ["int\tft_early(void);", ""]
+            elif op == "decl_after_endif":
+                lines[ei + 1:ei + 1] = ["int\tft_late(void);"]
+            elif op == "no_guard":
+                del lines[ei]
+                del lines[di]
+                del lines[gi]
+            elif op == "guard_define_other":
+                lines[di] = "# define " + sym + "_X"
+        return "\n".join(lines), op
+    if op == "header_line_removed":
+        del lines[rng.randrange(11)]
+        return "\n".join(lines), op
+    if op == "header_frame_short":
+        lines[0] = lines[0].replace("*", "", 1)
+        return "\n".join(lines), op
+    if op == "header_slashes":
+        lines[:11] = ["//" + ln[2:] for ln in lines[:11]]
+        return "\n".join(lines), op
+    if op == "header_after_blank":
+        lines.insert(0, "")
+        return "\n".join(lines), op
+    if op == "header_field_removed":
+        k = rng.choice([5, 7, 8])
+        lines[k] = FRAME[:3] + " " * 74 + FRAME[-3:]
+        return "\n".join(lines), op
+    if op == "stray_eol_preproc" and pre_idx:
+        j = pre_idx[rng.randrange(len(pre_idx))]
+        lines[j] += rng.choice([" \\ ", " \\\t", " @", " \\ // c", "\\"])
+        return "\n".join(lines), op
 
     def pick(idx):
         return idx[rng.randrange(len(idx))] if idx else None
